@@ -54,7 +54,7 @@ def convertBits5to8 (data : List Nat) : Option Bytes :=
 `DecodeNoLimit`. Returns the (lower-cased) human-readable part and the payload bytes. -/
 def bech32Decode (s : String) (limit : Option Nat) : Option (String × Bytes) :=
   let cs := s.toList
-  let n := s.utf8ByteSize
+  let n := byteLen s
   if n < 8 then none else
   if (match limit with | some l => decide (n > l) | none => false) then none else
   if cs.any (fun c => c.toNat < 33 || c.toNat > 126) then none else
